@@ -175,7 +175,8 @@ class Call:
             evaluation, and the latter is equal to ``"numeric"``.
         """
         if isinstance(x, np.ndarray):
-            self.value = x
+            # A copy: the call may have returned an array of the caller as it is ('I(w)')
+            self.value = np.array(x)
         elif isinstance(x, pd.Series):
             self.value = x.values
         else:
